@@ -14,8 +14,13 @@ LIBS_R="/repo/_build/bin/libmfhdf.a /repo/_build/bin/libhdf.a"
 mkdir -p /tmp/seed/demo_$NAME && cd /tmp/seed/demo_$NAME
 gcc -w -I$WT/hdf/src -I$WT/mfhdf/src -I$WT/_build $WT/seed_out/demo.c $LIBS_W -ljpeg -lz -lm -ldl -o demo_with || { echo "demo compile failed"; exit 2; }
 gcc -w -I/repo/hdf/src -I/repo/mfhdf/src -I/repo/_build $WT/seed_out/demo.c $LIBS_R -ljpeg -lz -lm -ldl -o demo_without || { echo "demo compile failed"; exit 2; }
-(./demo_with >/dev/null 2>&1); W=$?
-(./demo_without >/dev/null 2>&1); O=$?
+# demos for tool properties take the tool path from argv[1] or $HDIFF/$HREPACK/$HDP/$HDFIMPORT
+TOOLARG_W=""; TOOLARG_O=""
+for t in hdiff hrepack hdp hdfimport; do
+  if grep -q "$t" $WT/seed_out/demo.c && grep -q "argv\[1\]" $WT/seed_out/demo.c && grep -q "bin/$t" $WT/seed_out/demo.c; then TOOLARG_W="$WT/_build/bin/$t"; TOOLARG_O="/repo/_build/bin/$t"; fi
+done
+(HDIFF=$WT/_build/bin/hdiff HREPACK=$WT/_build/bin/hrepack HDP=$WT/_build/bin/hdp HDFIMPORT=$WT/_build/bin/hdfimport ./demo_with $TOOLARG_W >/dev/null 2>&1); W=$?
+(HDIFF=/repo/_build/bin/hdiff HREPACK=/repo/_build/bin/hrepack HDP=/repo/_build/bin/hdp HDFIMPORT=/repo/_build/bin/hdfimport ./demo_without $TOOLARG_O >/dev/null 2>&1); O=$?
 echo "demo with change: exit $W ; without: exit $O"
 cd /; rm -rf /tmp/seed/demo_$NAME
 case "$T" in *"100% tests passed"*) ;; *) echo "REJECT: suite fails"; exit 1;; esac
